@@ -551,6 +551,63 @@ class Engine:
                             if 'l' in a and a['l'] not in rel:
                                 rel.add(a['l']); changed = True
         self.rel = rel
+        self._liveness()
+
+    def _liveness(self):
+        """live-in sets of `rel` locals per block (backward dataflow); env is pruned to them so that paths merge"""
+        B = self.B
+        n = len(B)
+        use = [set() for _ in range(n)]
+        kill = [set() for _ in range(n)]
+        rel = self.rel
+        for i, b in enumerate(B):
+            u, k = use[i], kill[i]
+
+            def rd(l):
+                if l in rel and l not in k:
+                    u.add(l)
+            for dst, rv in b['s']:
+                for o in rv_operands(rv):
+                    if 'l' in o:
+                        rd(o['l'])
+                if 'pl' in rv:
+                    rd(rv['pl']['l'])
+                if dst['p']:
+                    rd(dst['l'])
+                else:
+                    k.add(dst['l'])
+            t = b['t']
+            if t['k'] == 'call':
+                for a in t['args']:
+                    if 'l' in a:
+                        rd(a['l'])
+                if 'ind' in t and 'l' in t['ind']:
+                    rd(t['ind']['l'])
+                if t['dest']['p']:
+                    rd(t['dest']['l'])
+                else:
+                    k.add(t['dest']['l'])
+            elif t['k'] == 'switch':
+                if 'l' in t['d']:
+                    rd(t['d']['l'])
+            elif t['k'] == 'ret':
+                rd(0)
+            elif t['k'] == 'goto' and 'drop' in t:
+                pass
+        live_in = [set() for _ in range(n)]
+        succs = [self.fn.succs(i) for i in range(n)]
+        changed = True
+        while changed:
+            changed = False
+            for i in range(n - 1, -1, -1):
+                out = set()
+                for s_ in succs[i]:
+                    out |= live_in[s_]
+                new = use[i] | (out - kill[i])
+                if new != live_in[i]:
+                    live_in[i] = new
+                    changed = True
+        self.live_in = live_in
 
     # -- tracking
     def call_tracked(self, bi):
@@ -764,38 +821,72 @@ class Engine:
                 yield t['o'], env, f2
             return
 
-    def explore(self, monitor=None, start_block=0, start_env=None, start_facts=None):
-        """monitor(bi, block, env, facts, mstate) -> (new_mstate, [labels]).  Returns list of hits:
-        (label, bi, facts, env, key).  A monitor state of None prunes the path."""
+    def explore(self, monitor=None, start_block=0, start_env=None, start_facts=None, forget=False):
+        """monitor(bi, block, env, facts, mstate) -> (new_mstate, [labels]) is evaluated on entry to each block with
+        the facts known there.  Returns hits (label, bi, facts, env, key).  A monitor state of None prunes the path.
+        forget=True drops facts about call sites whose result value is no longer held by any live local (the
+        monitor state is expected to remember what it needs); this only merges states."""
         hits = []
+        hitkeys = set()
         m0 = monitor.init if monitor is not None and hasattr(monitor, 'init') else 0
-        start_key = (start_block, frozenset(), frozenset(), m0)
-        self.parent = {start_key: None}
-        work = [(start_block, dict(start_env or {}), dict(start_facts or {}), m0, start_key)]
+        self.parent = {}
+        work = []
+        self._n = 0
+
+        def visit(nb, env, facts, ms, pkey):
+            if monitor is not None:
+                ms2, labels = monitor(nb, self.B[nb], env, facts, ms)
+            else:
+                ms2, labels = ms, ()
+            if forget and facts:
+                live_sites = set()
+                for v in env.values():
+                    call_sites_in(v, live_sites_list := [])
+                    live_sites.update(live_sites_list)
+                f2 = {}
+                for a, v in facts.items():
+                    cs = call_sites_in(a)
+                    if not cs or any(c in live_sites for c in cs):
+                        f2[a] = v
+                pruned = f2
+            else:
+                pruned = facts
+            key = (nb, frozenset((k, freeze(v)) for k, v in env.items()), frozenset((freeze(k), freeze(v)) for k, v in pruned.items()), freeze(ms2))
+            for lab in labels or ():
+                hk = (freeze(lab), nb, key)
+                if hk in hitkeys:
+                    continue
+                hitkeys.add(hk)
+                hits.append((lab, nb, dict(facts), dict(env), (pkey, nb)))
+            if ms2 is None:
+                return
+            if key in self.parent:
+                return
+            self.parent[key] = pkey
+            work.append((nb, env, pruned, ms2, key))
+
+        visit(start_block, dict(start_env or {}), dict(start_facts or {}), m0, None)
         n = 0
         while work:
             bi, env, facts, ms, key0 = work.pop()
             n += 1
             if n > self.maxstates:
+                self.states = n
                 raise RuntimeError('state explosion in ' + self.fn.name)
-            if monitor is not None:
-                ms2, labels = monitor(bi, self.B[bi], env, facts, ms)
-                for lab in labels or ():
-                    hits.append((lab, bi, dict(facts), dict(env), key0))
-                if ms2 is None:
-                    continue
-                ms = ms2
             for nb, e2, f2 in self.succ(bi, env, facts):
-                key = (nb, frozenset((k, freeze(v)) for k, v in e2.items()), frozenset((freeze(k), freeze(v)) for k, v in f2.items()), freeze(ms))
-                if key in self.parent:
-                    continue
-                self.parent[key] = key0
-                work.append((nb, e2, f2, ms, key))
+                li = self.live_in[nb]
+                if len(e2) and any(k not in li for k in e2):
+                    e2 = {k: v for k, v in e2.items() if k in li}
+                visit(nb, e2, f2, ms, key0)
         self.states = n
         return hits
 
     def path_of(self, key):
+        """key is either a state key or a hit key (parent_state_key, block)"""
         p = []
+        if key is not None and len(key) == 2:
+            p.append(key[1])
+            key = key[0]
         while key is not None:
             p.append(key[0])
             key = self.parent[key]
@@ -900,6 +991,43 @@ class CallGuard:
                 continue
             if self.matches_call(fn, site, fn.B[site]['t']):
                 out.append(site)
+        return out
+
+
+class LocalGuard:
+    """fact about a named local / argument: want in ok|some|err|none|true|false"""
+
+    def __init__(self, varname, want, name=None):
+        self.var = varname
+        self.want = want
+        self.name = name or ('%s is %s' % (varname, want))
+
+    def matches_call(self, fn, bi, t):
+        return False
+
+    def _is(self, fn, a):
+        if a[0] == 'local':
+            return fn.name_of(a[1]) == self.var
+        if a[0] == 'place' and a[1][0] == 'local':
+            return fn.name_of(a[1][1]) == self.var
+        return False
+
+    def track_atom(self, fn, a):
+        if a[0] in ('ok', 'discr'):
+            return self._is(fn, a[1])
+        return self._is(fn, a)
+
+    def holds(self, fn, facts):
+        out = []
+        for a, v in facts.items():
+            if a[0] == 'ok' and self._is(fn, a[1]):
+                pol = {'ok': 1, 'some': 1, 'err': 0, 'none': 0}.get(self.want)
+                if pol is not None and v == pol:
+                    out.append(1000000 + a[1][1] if a[1][0] == 'local' else 1000000)
+            elif self._is(fn, a):
+                pol = {'true': 1, 'false': 0}.get(self.want)
+                if pol is not None and v == pol:
+                    out.append(1000000)
         return out
 
 
